@@ -2,7 +2,7 @@
 proxy appends, so with select_element="last" (nearest proxy) the identity comes from the attacker's element.
 Run: /venv/bin/python /verif/repro/C43_unterminated_quote_merges_elements.py"""
 import sys
-sys.path.insert(0, "/repo")
+import os; sys.path.insert(0, os.environ.get("VGI_REPO", "/repo"))
 from vgi_rpc.http._mtls import mtls_authenticate_xfcc, _parse_xfcc
 
 class Req:
@@ -12,9 +12,12 @@ class Req:
 attacker = 'Subject="CN=admin";By="'          # forwarded by a proxy that appends instead of replacing
 proxy = 'Hash=abc;Subject="CN=real-client"'     # what the trusted proxy appends for the real TLS peer
 hdr = attacker + "," + proxy
-els = _parse_xfcc(hdr)
 print("header        :", hdr)
-print("elements      :", len(els), "(expected 2 or a rejection)")
+try:
+    els = _parse_xfcc(hdr)
+    print("elements      :", len(els), "(expected 2 or a rejection)")
+except ValueError as e:
+    print("elements      : parser rejects the header:", e)
 try:
     ctx = mtls_authenticate_xfcc(select_element="last")(Req(hdr))
     print("principal(last):", repr(ctx.principal), "(expected 'real-client')")
